@@ -353,6 +353,9 @@ type Run struct {
 	Doc     *Node
 	DocKind int
 	Bytes   []byte
+	// SPObj, when set, is the ServiceProvider value to call (instead of a fresh one built from Cfg): for
+	// sequences of calls on one long-lived object whose configuration is edited in place between calls
+	SPObj *saml.ServiceProvider
 }
 
 func withGlobals(c Cfg, now int64, f func()) {
@@ -377,6 +380,9 @@ func (r *Run) bytes() []byte {
 func (r *Run) Exec() (o Obs, formAgrees bool) {
 	formAgrees = true
 	spv := r.Cfg.SP()
+	if r.SPObj != nil {
+		spv = r.SPObj
+	}
 	cur := mustURL(r.Cur)
 	b := r.bytes()
 	withGlobals(r.Cfg, r.Now, func() {
@@ -407,6 +413,9 @@ func (r *Run) Exec() (o Obs, formAgrees bool) {
 				req.PostForm = url.Values{"SAMLResponse": {base64.StdEncoding.EncodeToString(b)}}
 				req.Form = req.PostForm
 				spv2 := r.Cfg.SP()
+				if r.SPObj != nil {
+					spv2 = r.SPObj
+				}
 				o2 = observe(spv2.ParseResponse(req, r.IDs))
 			}()
 		}
